@@ -82,7 +82,7 @@ func c02Gen(c *core.Ctx) {
 	for _, p := range c02Witnesses() {
 		core.Do(c, c02Case{Prog: p, Layouts: 1, Kind: "known-finding-witness"}, c02Exec)
 	}
-	n := c.Pick(8000, 100000)
+	n := c.Pick(8000, 600000)
 	layouts := c.Pick(4, 12)
 	pairs := map[string]int{}
 	for i := 0; i < n; i++ {
